@@ -228,9 +228,18 @@ func TestFreeJoinV1(t *testing.T) {
 				last = x
 			}
 			if noCopy {
+				for j := range s { // until it signals the release the slice is the consumer's: it writes into it
+					s[j] = -s[j]
+				}
 				select {
 				case released <- struct{}{}:
-				case <-time.After(20 * time.Millisecond): // the discipline was stopped before the release signal
+				case <-time.After(20 * time.Millisecond): // the discipline was stopped before the release signal:
+					kept = append(kept, s) //                   the slice stays the consumer's for good, it keeps writing into it
+				}
+				for _, old := range kept {
+					for j := range old {
+						old[j]--
+					}
 				}
 				continue
 			}
